@@ -384,6 +384,28 @@ func (st *c09State) prepare(w *engine.Worker, cs *c09Case) error {
 			return err
 		}
 		return os.WriteFile(dir, []byte("a file, not a directory\n"), 0o644)
+	case "dangling", "filedir":
+		// dangling: where one of the package directories belongs there is a symbolic link
+		// to nowhere; filedir: where one of the generated FILES belongs there is a directory
+		pks := expectedPackages(cs.gc, cs.flags)
+		pk := pks[(len(cs.key())+len(cs.flags))%len(pks)]
+		dir := filepath.Join(w.Mod, cs.spec.OutDir())
+		if err := os.MkdirAll(dir, 0o755); err != nil {
+			return err
+		}
+		if cs.env.Pre == "dangling" {
+			return os.Symlink(filepath.Join(w.Mod, "nowhere", "at", "all"), filepath.Join(dir, pk))
+		}
+		var victim string
+		for name := range cs.ref.Files {
+			if strings.HasPrefix(name, filepath.ToSlash(filepath.Join(cs.spec.OutDir(), pk))+"/") && strings.HasSuffix(name, ".go") && (victim == "" || name < victim) {
+				victim = name
+			}
+		}
+		if victim == "" {
+			return nil
+		}
+		return os.MkdirAll(filepath.Join(w.Mod, victim), 0o755)
 	case "file":
 		// a regular file where the token package directory belongs
 		dir := filepath.Join(w.Mod, cs.spec.OutDir())
@@ -487,7 +509,7 @@ func RunC09(c *Ctx) error {
 		// -o naming the working directory itself
 		{Out: "."}, {Cwd: "a/b", Out: "ABS:"},
 		{GDir: "src/grammar"}, {Cwd: "a/b", GDir: ".."}, {GDir: "ABS:src", Out: "out"}, {Cwd: "a/b", GDir: "../../top", Pkg: true}}
-	pres := []string{"", "other", "debris", "file", "corrupt", "debris-other", "outfile", "gomod-dir", "otherflags", "other-big"}
+	pres := []string{"", "other", "debris", "file", "corrupt", "debris-other", "outfile", "gomod-dir", "otherflags", "other-big", "dangling", "filedir"}
 	quickFlags := [][]string{{}, {"-zip"}, {"-v", "-a"}, {"-no_lexer"}, {"-debug_lexer", "-debug_parser"}, {"-zip", "-no_lexer", "-v"}}
 	var cfgs []*c09Case
 	seen := map[string]bool{}
@@ -995,7 +1017,7 @@ func c09Judge(c *Ctx, st *c09State, cs *c09Case, plan c09Plan, res *engine.Resul
 			return
 		}
 	}
-	if cs.env.Pre != "" && cs.env.Pre != "file" && cs.env.Pre != "outfile" && cs.gc.IR != nil && cs.gc.Compilable {
+	if cs.env.Pre != "" && cs.env.Pre != "file" && cs.env.Pre != "outfile" && cs.env.Pre != "dangling" && cs.env.Pre != "filedir" && cs.gc.IR != nil && cs.gc.Compilable {
 		// whatever an earlier run left behind: the packages this configuration calls for must compile
 		called := map[string][]byte{}
 		for _, pk := range expectedPackages(cs.gc, cs.flags) {
